@@ -7,7 +7,8 @@ import qsp_common as Q
 
 LEVEL = "proof"
 TECHNIQUE = ("Coq theorems for the exact-arithmetic preconditions on the family (C03_no_unit_roots: coefficient 1-norm < 1 keeps "
-             "1 - F F~ away from 0 on the whole circle; Laurent form of the capitalised target; budget) and Coq-verified result "
+             "1 - F F~ away from 0 on the whole circle; C03_family_admissible: a Chebyshev series is <= its coefficient 1-norm on [-1,1]; "
+             "Laurent form of the capitalised target; budget) and Coq-verified result "
              "checkers (check_c01, check_c02) on every return; the success clause itself is decided by model/implementation outcome "
              "agreement: the model predicts 'returns' on the family and the implementation is run for all 2^d stubbed root-choice "
              "vectors (d <= 6 quick, d <= 10 thorough; sampled above) x {Wx, Wz}, and on complex corners of degree 1..6 in Wx/z")
